@@ -370,6 +370,10 @@ var valuePanics = map[string]string{
 var reflectSetters = map[string]bool{"(reflect.Value).Set": true, "(reflect.Value).SetInt": true, "(reflect.Value).SetUint": true,
 	"(reflect.Value).SetBool": true, "(reflect.Value).SetFloat": true, "(reflect.Value).SetString": true, "(reflect.Value).SetComplex": true}
 
+// reflectNeedValid: getters that panic on the zero Value whatever the static types are (the zero Value is what
+// reflect.ValueOf returns for a nil interface). Checked, like the setters, in units that opt in.
+var reflectNeedValid = map[string]bool{"(reflect.Value).Type": true, "(reflect.Value).Interface": true}
+
 // libraryPanic treats the call as a possible panic with an unknown value unless `safe` holds.
 func (e *Engine) libraryPanic(st *State, c *ast.CallExpr, full, why, safe string) {
 	e.stubsUsed[full+": may panic ("+why+")"] = true
@@ -392,6 +396,9 @@ func (e *Engine) libraryPanic(st *State, c *ast.CallExpr, full, why, safe string
 	}
 	if !e.c.Panics {
 		e.oblige(st, "panic", safe, c.Pos(), full+" "+why)
+	}
+	if safe != "false" {
+		e.assume(st.pc, safe) // execution continues only when the call did not panic
 	}
 }
 
@@ -737,6 +744,10 @@ func (e *Engine) stdStub(full string, c *ast.CallExpr, recv *Value, args []Value
 	}
 	if why, ok := valuePanics[full]; ok && e.spec == 0 && e.bound == 0 {
 		e.libraryPanic(st, c, full, why, "false")
+	}
+	if reflectNeedValid[full] && recv != nil && e.spec == 0 && e.bound == 0 {
+		e.declareFun("rv_valid", []string{e.sortOf(recv.Typ)}, "Bool")
+		e.libraryPanic(st, c, full, "panics with a *reflect.ValueError on the zero Value (e.g. reflect.ValueOf(nil))", sx("rv_valid", recv.T))
 	}
 	if reflectSetters[full] && recv != nil && e.spec == 0 && e.bound == 0 {
 		e.declareFun("rv_valid", []string{e.sortOf(recv.Typ)}, "Bool")
